@@ -197,7 +197,7 @@ UNIT = {
                      ("X6", r"located_error!\(\s*LogicError::TypeMisMatch\(other\.to_string\(\), Type::Procedure\),\s*([\w\.]+)\s*\)", r"type_mismatch_at(\1)", 0, "S"),
                      ("X6", r"located_error!\(\s*LogicError::UnexpectedExpression\(expression\.clone\(\)\),\s*([\w\.]+)\s*\)", r"unexpected_expression_at(\1)", 0, "S"),
                      ("X6", r"located_error!\(\s*LogicError::UnboundedSymbol\(ident\.clone\(\)\),\s*([\w\.]+)\s*\)", r"unbound_symbol_at(\1)", 0, "S"),
-                     ("X3s", r"arguments\s*\.iter\(\)\s*\.map\(\|arg\| Self::eval_expression\(arg, env\)\)\s*\.collect\(\)",
+                     ("X3s", r"arguments\s*\.iter\(\)\s*\.map\(\|(\w+)\| Self::eval_expression\(\1, env\)\)\s*\.collect\(\)",
                       "std_map_collect(arguments, |arg: &Expression| -> (o: Result<Value<R>>) ensures evaluates(*arg, *env, o) "
                       "{ Self::eval_expression(arg, env) })", 0, "S"),
                  ],
